@@ -76,6 +76,9 @@ func c04Str(b []byte) string {
 		}
 		return `(str "` + string(b) + `")`
 	}
+	if b[0] != 0 {
+		return h.HexBytes(b)
+	}
 	return h.Bytes(b)
 }
 
@@ -100,7 +103,7 @@ func (it *c04Item) coq() string {
 	case "text":
 		return fmt.Sprintf("(IText %d %s)", it.Tag, c04Str(it.bytes()))
 	case "bytes":
-		return fmt.Sprintf("(IBytes %d %s)", it.Tag, h.Bytes(it.bytes()))
+		return fmt.Sprintf("(IBytes %d %s)", it.Tag, h.HexBytes(it.bytes()))
 	case "date":
 		return fmt.Sprintf("(IDate %d %s)", it.Tag, c04ZBig(it.num()))
 	case "intv":
@@ -295,7 +298,7 @@ type c04Out struct {
 func (o c04Out) coq() string {
 	switch o.Class {
 	case "ok":
-		return "(OOk " + h.Bytes(o.Bytes) + ")"
+		return "(OOk " + h.HexBytes(o.Bytes) + ")"
 	case "err":
 		return "OErr"
 	case "panic":
